@@ -25,7 +25,7 @@
     result of a case: 0, or  code + 10 * reason + 1000 * (index of the step). *)
 From Coq Require Import List ZArith Bool Lia Arith.
 Import ListNotations.
-From TI Require Import lib.Term model.Screen model.ScreenSession.
+From TI Require Import lib.Term model.Screen model.ScreenSession model.ScreenBlend.
 
 Record tobs := mk_obs {
   o_freed : list (nat * Z);      (* widgets finalised during the step, with their z-index *)
@@ -57,8 +57,11 @@ Inductive tact :=
                                             terminal device at once, what was put into the output buffer *)
 
 Record tstep := mk_step { ts_act : tact; ts_obs : tobs }.
+(** [tc_ident]: the identity of the session's terminal (model/ScreenBlend.v): identified as kitty
+    with its version, Konsole, or unidentified with forced support; [tc_konsole] = [is_konsole]
+    of it (checked: a case that says otherwise is malformed, model reason 11) *)
 Record tcase := mk_case { tc_konsole : bool; tc_ksup : bool; tc_ikon : bool; tc_fuel : nat;
-                          tc_next : Z; tc_steps : list tstep }.
+                          tc_next : Z; tc_ident : tident; tc_steps : list tstep }.
 
 (** [m_queue]: written to the screen's output buffer and not flushed yet (clear() and
     clear_images(now=False) do not flush; draw_screen / start / stop do) *)
@@ -267,6 +270,10 @@ Definition judge_screen (c : tcase) (st : tstate) (a : tact) (o : tobs)
       then (if negb (plcs_subset (vis_plcs term') (truth_plcs k origin truth)) then 9 else 0)
       else if negb (plcs_subset (vis_plcs term') (truth_plcs k origin truth)) then 4     (* a ghost *)
       else if negb (plcs_subset (truth_plcs k origin truth) (vis_plcs term')) then 5     (* an image line missing *)
+      (* EXACTLY those of the canvas, COUNTED: a placement stacked on an equal one (same rectangle, same
+         z-index) by a row re-sent without a delete is one placement too many; on Konsole, which replaces
+         an equal placement, equal placements are one ([norm], ScreenBlendProofs.konsole_is_dedup) *)
+      else if negb (plcs_exact (tc_ident c) (vis_plcs term') (truth_plcs k origin truth)) then 10
       else 0 in
     (* the environment model against urwid's own record *)
     let model := if Nat.eqb model 0 && negb (Bool.eqb (o_reached o) (negb aborted || quick)) then 10 else model in
@@ -389,6 +396,8 @@ Fixpoint judge_steps (c : tcase) (st : tstate) (i : nat) (steps : list tstep) (v
 Definition check (c : tcase) : nat :=
   let st0 := mk_tstate scr_init bterm_init (mk_alloc (tc_next c) []) [] [] false 0%Z false None in
   let v := judge_steps c st0 0 (tc_steps c) (mk_verdict None None) in
+  let v := if Bool.eqb (tc_konsole c) (is_konsole (tc_ident c)) then v
+           else mk_verdict (match v_mis v with Some x => Some x | None => Some (0, 11) end) (v_fail v) in
   match v_fail v, v_mis v with
   | Some (i, r), None => 2 + 10 * r + 1000 * i
   | Some (i, r), Some _ => 3 + 10 * r + 1000 * i
